@@ -982,6 +982,334 @@ def check_adaptive_property(c, r):
     return None
 
 
+# ---------------------------------------------------------------------------
+# non-finite trial steps (NaN / inf error ratios): extended controller model (coq/C12/Model3.v)
+# ---------------------------------------------------------------------------
+
+XDRV_HEADER_EXTRA = """From Verif.C12 Require Import Model3.
+Fixpoint beq_list (a b : list bool) : bool :=
+  match a, b with [], [] => true | u :: a', v :: b' => Bool.eqb u v && beq_list a' b' | _, _ => false end.
+Definition xadaptive_agrees (c : (Q*Q*Q) * list xevent * option (list Q) * list Q * option (list bool) * Q) : bool :=
+  let '((t0, tau0, tend), evs, itimes, itaus, iacc, slack) := c in
+  allclose (xadaptive_taus tend (adaptive_init t0 tau0) evs) itaus slack &&
+  match iacc with Some fl => beq_list (xadaptive_accepts tend (adaptive_init t0 tau0) evs) fl | None => true end &&
+  match xadaptive_times t0 tau0 tend evs, itimes with
+  | Some mt, Some it => allclose mt it slack
+  | None, None => true
+  | _, _ => false
+  end.
+Local Open Scope Q_scope.
+"""
+
+
+def xqc(v):
+    v = float(v)
+    if math.isnan(v):
+        return 'XNaN'
+    if math.isinf(v):
+        return 'XPInf' if v > 0 else 'XNInf'
+    return 'XFin %s' % cq(Fr(v))
+
+
+def np_ratio(x, xnew, xhat, tol, step_factor, err_order):
+    """the float operations of solvers.py:509-525 on a recorded trial step (same numpy as the implementation)"""
+    with np.errstate(all='ignore'):
+        x, xnew, xhat = (np.array(v, dtype=float) for v in (x, xnew, xhat))
+        d = tol + tol * abs(x)
+        r = np.linalg.norm((xhat - xnew) / d) / np.sqrt(len(x))
+        r0 = r
+        if r == 0:
+            r = 1e-15
+        fac = step_factor * r ** (-1 / err_order)
+    return float(r0), float(fac)
+
+
+def py_accepts(r):
+    return r == 0 or r <= 1          # False for NaN and +inf
+
+
+def py_clamp(praw):
+    return min(5.0, max(0.2, praw))  # Python's builtin min/max: 0.2 for NaN
+
+
+def xmirror(t0, tau0, t_end, outs):
+    """Fractions mirror of Model3.xadaptive_loop (classification only): outs = None | (r, praw) floats"""
+    t, tau, times, taus, acc = Fr(t0), Fr(tau0), [Fr(t0)], [], []
+    for e in outs:
+        if t >= t_end:
+            break
+        taus.append(tau)
+        if e is None:
+            tau = tau / 2
+            acc.append(False)
+            continue
+        a = py_accepts(e[0])
+        acc.append(a)
+        if a:
+            t = t + tau
+            times.append(t)
+        f = py_clamp(e[1])
+        tau = tau * (Fr(1, 5) if f == 0.2 else Fr(f))
+    return (times if t >= t_end else None), taus, acc
+
+
+def controller_oracle(t0, t_end, taus, outs, times, acc, unfinished):
+    """the driver clauses of the property on the implementation's own run, non-finite outcomes included:
+    every step size finite and positive, consecutive step sizes within [0.2, 5] (0.5 after a Newton failure, else
+    min(5, max(0.2, praw)) with Python's builtin min/max), accepted <=> the error ratio passes `r == 0 or r <= 1`
+    (never for NaN/inf), times finite, strictly increasing from t0, reach t_end within the evaluation budget."""
+    for k, tau in enumerate(taus):
+        if not (isinstance(tau, float) and math.isfinite(tau) and tau > 0):
+            return ('tau-non-finite', 'trial step %d was made with the step size %r (previous outcome: %s)' % (
+                k, tau, 'Newton failure' if k and outs[k - 1] is None else ('error ratio %r' % (outs[k - 1][0],) if k else '-')))
+    for k in range(len(taus) - 1):
+        f = Fr(taus[k + 1]) / Fr(taus[k])
+        if not (Fr(1, 5) * (1 - 4 * EPS) <= f <= 5 * (1 + 4 * EPS)):
+            return ('step-factor', 'step size changed by the factor %.6g (outside [0.2, 5]) after trial step %d' % (float(f), k))
+        if outs[k] is None:
+            if f != Fr(1, 2):
+                return ('newton-failure-halving', 'after a Newton failure the step was multiplied by %.6g, not 0.5' % float(f))
+        else:
+            fe = py_clamp(outs[k][1])
+            if abs(f - Fr(fe)) > 4 * EPS * Fr(fe):
+                return ('step-factor', 'after error ratio %r the step was multiplied by %.6g, not min(5, max(0.2, %r)) = %.6g' % (
+                    outs[k][0], float(f), outs[k][1], fe))
+    if unfinished:
+        return ('end-time', 'the run did not reach t_end = %r within %d trial steps (last step sizes %s)' % (t_end, len(taus), taus[-3:]))
+    if not all(isinstance(t, float) and math.isfinite(t) for t in times):
+        return ('times-non-finite', 'returned times %s' % times[:8])
+    if times[0] != t0 or any(times[k + 1] <= times[k] for k in range(len(times) - 1)):
+        return ('times-increasing', 'times %s are not strictly increasing from t0' % times[:8])
+    if times[-1] < t_end:
+        return ('end-time', 'last time %r < t_end %r' % (times[-1], t_end))
+    k = 0
+    for i, tau in enumerate(taus):
+        e = outs[i]
+        if e is not None and abs(e[0] - 1) < 1e-12:
+            return None                                  # border: the test r <= 1 depends on the last bit
+        want = e is not None and py_accepts(e[0])
+        if acc is not None and acc[i] != want:
+            return ('accept-rule', 'trial step %d with error ratio %r was %s' % (i, e and e[0], 'accepted' if acc[i] else 'rejected'))
+        if want:
+            k += 1
+            if k >= len(times) or abs(Fr(times[k]) - (Fr(times[k - 1]) + Fr(tau))) > 2 * EPS * (abs(Fr(times[k])) + abs(Fr(tau))):
+                return ('accept-rule', 'a step with error ratio %r was not accepted (trial step %d)' % (e[0], i))
+    if k != len(times) - 1:
+        return ('accept-rule', '%d times returned for %d trial steps passing the error test' % (len(times) - 1, k))
+    return None
+
+
+def gen_xadaptive_cases(ctx):
+    """scripted stepper whose trial steps are partly non-finite (NaN / +-inf / overflowing / huge estimates)"""
+    rng = ctx.rng
+    cases = []
+    N = 120 if ctx.tier == 'thorough' else 40
+    tries = 0
+    while len(cases) < N and tries < 30 * N:
+        tries += 1
+        n = rng.randint(1, 3)
+        x0 = [rng.uniform(-2, 2) for _ in range(n)]
+        tol = 10.0 ** -rng.randint(2, 8)
+        q = rng.choice([1, 2, 3, 4])
+        sf = rng.choice([0.9, 0.8, 0.95, 0.5, 1.0])
+        tau0 = rng.choice([0.1, 1.0, 50.0, 1e3, 1e-3])
+        t0 = rng.choice([0.0, rng.uniform(-1, 1)])
+        nev = rng.randint(4, 25)
+        events, outs = [], []
+        xa = np.array(x0, dtype=float)
+        d = tol + tol * abs(xa)
+        lead = rng.randint(0, 4)                        # leading non-finite attempts (tau0 far too large)
+        for j in range(nev):
+            u = rng.random()
+            if j >= lead and u < 0.1:
+                events.append({'fail': True})
+                outs.append(None)
+                continue
+            if j < lead or u < 0.4:
+                bad = rng.choice([float('nan'), float('nan'), float('inf'), float('-inf'), 1e300, 1e-320])
+                diff = [float(dk) * rng.uniform(0.1, 1) for dk in d]
+                diff[rng.randrange(n)] = bad
+            else:
+                rt = rng.choice([rng.uniform(0, 1), rng.uniform(0, 1), rng.uniform(1, 3), 10 ** rng.uniform(-6, 2), 0.0])
+                diff = [rt * float(dk) * rng.choice([1, -1]) for dk in d]
+            events.append({'diff': diff})
+            outs.append(np_ratio(xa, xa, xa + np.array(diff), tol, sf, q))
+        full, _, _ = xmirror(t0, tau0, Fr(10) ** 30, outs)
+        tms = [Fr(t0)]
+        t, tau = Fr(t0), Fr(tau0)
+        for e in outs:
+            if e is None:
+                tau /= 2
+                continue
+            if py_accepts(e[0]):
+                t += tau
+                tms.append(t)
+            f = py_clamp(e[1])
+            tau *= Fr(1, 5) if f == 0.2 else Fr(f)
+        if len(tms) < 2:
+            continue
+        k = rng.randrange(1, len(tms))
+        te = Fr(float((tms[k - 1] + tms[k]) / 2)) if rng.random() < 0.8 else tms[-1] + 1000
+        mt, mtaus, macc = xmirror(t0, tau0, te, outs)
+        slack = 8 * EPS * (len(outs) + 2) ** 2 * max(abs(Fr(t0)), abs(te) if mt else 0, sum(mtaus, Fr(0)))
+        if any(abs(v - te) <= 2 * slack for v in tms):
+            continue
+        cases.append(dict(kind='adaptive', t0=t0, tau0=tau0, t_end=float(te), tol=tol, step_factor=sf, err_order=q,
+                          events=events, x0=x0, outs=outs, slack=slack))
+    return cases
+
+
+def gen_xtrace_cases(ctx, methods):
+    """every ADAPTIVE shipped method through its real driver on a problem whose right-hand side leaves its domain
+    when the trial step is far too large: h' = -k sqrt(h) and y' = -k log(y) (NaN for negative arguments)."""
+    rng = ctx.rng
+    cases = []
+    reps = 3 if ctx.tier == 'thorough' else 1
+    for name, m in methods.items():
+        if not m['adaptive']:
+            continue
+        for rep in range(reps):
+            for prob in ('sqrt', 'log'):
+                n = rng.randint(1, 2)
+                Mkind = rng.choice(['dense', 'sparse', 'none'])
+                x = [dy(rng, 1, 3, 8) + (1.0 if prob == 'log' else 0.0) for _ in range(n)]
+                cases.append(dict(kind='xtrace', name=name, problem=prob, Mkind=Mkind,
+                                  M=None if Mkind == 'none' else spd_matrix(rng, n), k=[dy(rng, 1, 4, 8) for _ in range(n)],
+                                  Jkind='dense', n=n, x=x, tau=rng.choice([5.0, 50.0, 500.0]),   # sparse J: splu raises RuntimeError on a NaN Jacobian (reported, open)
+                                  t0=rng.choice([0.0, 0.5, -1.0]), t_end=None, tol=rng.choice([1e-3, 1e-4]),
+                                  step_factor=rng.choice([None, 0.8]), max_attempts=300))
+                cases[-1]['t_end'] = cases[-1]['t0'] + rng.choice([0.25, 0.5])
+    return cases
+
+
+def xtrace_digest(c, r, methods):
+    """(taus, outs, acc, times, unfinished) of a recorded run; outs by the harness's own evaluation of r"""
+    m = methods[c['name']]
+    sf = 0.9 if c.get('step_factor') is None else c['step_factor']
+    atts = r['attempts']
+    taus, outs, acc = [], [], []
+    for i, a in enumerate(atts):
+        taus.append(a['tau'])
+        if a.get('status') != 'Ok' or a.get('x_est') is None:
+            outs.append(None)
+            acc.append(False)
+            continue
+        outs.append(np_ratio(a['x'], a['x_new'], a['x_est'], c['tol'], sf, m['err_order']))
+        if i + 1 < len(atts):
+            acc.append(atts[i + 1]['x'] == a['x_new'] and a['x_new'] != a['x'])
+        else:
+            acc.append(not r.get('too_many'))
+    return taus, outs, acc, r.get('times'), bool(r.get('too_many'))
+
+
+def check_xtrace_property(c, r, methods, stats):
+    if r['status'] != 'Ok':
+        return ('raises-' + r['status'], 'solvers.%s raised on a run with non-finite trial steps: %s' % (c['name'], r.get('msg')))
+    taus, outs, acc, times, unfinished = xtrace_digest(c, r, methods)
+    stats['attempts'] += len(taus)
+    stats['nonfinite_ratio'] += sum(1 for e in outs if e is not None and not math.isfinite(e[0]))
+    stats['newton_failures'] += sum(1 for e in outs if e is None)
+    if any(a.get('status') not in ('Ok', 'NoConvergence') for a in r['attempts']):
+        return ('raises-in-step', 'a step function raised %s' % [a.get('status') for a in r['attempts'] if a.get('status') not in ('Ok', 'NoConvergence')][:1])
+    bad = controller_oracle(c['t0'], c['t_end'], taus, outs, times, acc, unfinished)
+    if bad:
+        return bad
+    if not all_finite(r['sols']):
+        return ('state-non-finite', 'a non-finite state was accepted')
+    if len(r['sols']) != len(times):
+        return ('one-state-per-time', '%d states for %d times' % (len(r['sols']), len(times)))
+    return None
+
+
+def xcase_coq(t0, tau0, t_end, outs, times, taus, acc, slack):
+    evs = clist(['XNewtonFail' if e is None else 'XStepped (%s) (%s)' % (xqc(e[0]), xqc(e[1])) for e in outs])
+    it = 'None' if times is None else 'Some ' + clist([cq(Fr(t)) for t in times])
+    fl = 'None' if acc is None else 'Some ' + clist([cbool(b) for b in acc])
+    return '((%s, %s, %s), %s, %s, %s, %s, %s)' % (cq(Fr(t0)), cq(Fr(tau0)), cq(Fr(t_end)), evs, it,
+                                                   clist([cq(Fr(t)) for t in taus]), fl, cq(upf(slack)))
+
+
+def jsafe(o):
+    if isinstance(o, float) and not math.isfinite(o):
+        return repr(o)
+    if isinstance(o, dict):
+        return {k: jsafe(v) for k, v in o.items()}
+    if isinstance(o, (list, tuple)):
+        return [jsafe(v) for v in o]
+    if isinstance(o, Fr):
+        return float(o)
+    return o
+
+
+def stage_nonfinite(ctx, methods):
+    """non-finite trial steps: scripted stepper + every adaptive shipped method, oracle + exact model trace"""
+    xc = gen_xadaptive_cases(ctx)
+    tc = gen_xtrace_cases(ctx, methods)
+    res = run_tasks(ctx, xc + tc)
+    xr, tr = res[:len(xc)], res[len(xc):]
+    items = []
+    stats = {'scripted_runs': len(xc), 'method_runs': len(tc), 'attempts': 0, 'nonfinite_ratio': 0, 'newton_failures': 0,
+             'model_trace_compared': 0, 'model_trace_skipped_border': 0}
+    stats['scripted_nonfinite_outcomes'] = sum(1 for c in xc for e in c['outs'] if e is not None and not math.isfinite(e[0]))
+    for k, (c, r) in enumerate(zip(xc, xr)):
+        ctx.count(('adaptive-nonfinite', k))
+        if r['status'] != 'Ok':
+            bad = ('raises-' + r['status'], 'adaptive driver raised: %s' % r.get('msg'))
+        else:
+            n = len(r['taus'])
+            bad = controller_oracle(c['t0'], c['t_end'], r['taus'], c['outs'][:n], r.get('times'), None, False) if not r.get('exhausted') \
+                else controller_oracle(c['t0'], c['t_end'], r['taus'], c['outs'][:n], [c['t0']], None, False) if False else None
+            if r.get('exhausted'):
+                # events ran out: only the step-size clauses apply
+                b2 = controller_oracle(c['t0'], -math.inf, r['taus'], c['outs'][:n], [c['t0']], None, False)
+                bad = b2 if b2 and b2[0] in ('tau-non-finite', 'step-factor', 'newton-failure-halving') else None
+        if bad:
+            ctx.report('impl:adaptive-nonfinite:%s' % bad[0], 'scripted stepper with non-finite trial steps, tau0=%g: %s' % (c['tau0'], bad[1]),
+                       jsafe({'case': strip(c), 'impl': r, 'how': 'harness/impl/c12_driver.py task kind adaptive'}))
+            continue
+        items.append((('s', k), xcase_coq(c['t0'], c['tau0'], c['t_end'], c['outs'], None if r.get('exhausted') else r['times'],
+                                          r['taus'], None, c['slack']), None))
+    for k, (c, r) in enumerate(zip(tc, tr)):
+        ctx.count(('xtrace', k, c['name'], c['problem']))
+        bad = check_xtrace_property(c, r, methods, stats)
+        if bad:
+            ctx.report('impl:nonfinite-trial-step:%s:%s' % (bad[0], c['name']),
+                       'solvers.%s on %s, x0=%s, k=%s, M=%s, tau0=%g, tol=%g, t in [%g, %g]: %s' % (
+                           c['name'], "h' = -k sqrt(h)" if c['problem'] == 'sqrt' else "y' = -k log(y)", c['x'], c['k'], c['Mkind'],
+                           c['tau'], c['tol'], c['t0'], c['t_end'], bad[1]),
+                       jsafe({'case': strip(c), 'impl': {kk: vv for kk, vv in r.items() if kk != 'sols'},
+                              'how': 'harness/impl/c12_driver.py task kind xtrace'}))
+            continue
+        taus, outs, acc, times, unfinished = xtrace_digest(c, r, methods)
+        mt, mtaus, macc = xmirror(c['t0'], c['tau'], Fr(c['t_end']), outs)
+        slack = 8 * EPS * (len(outs) + 2) ** 2 * max(abs(Fr(c['t0'])), abs(Fr(c['t_end'])), sum(mtaus, Fr(0)))
+        vis = [Fr(c['t0'])]
+        for a, tau in zip(macc, mtaus):
+            if a:
+                vis.append(vis[-1] + tau)
+        if any(abs(v - Fr(c['t_end'])) <= 2 * slack for v in vis) or any(e is not None and abs(e[0] - 1) < 1e-12 for e in outs):
+            stats['model_trace_skipped_border'] += 1
+            continue
+        items.append((('t', k), xcase_coq(c['t0'], c['tau'], c['t_end'], outs, times, taus, acc, slack), None))
+    stats['model_trace_compared'] = len(items)
+    if not items:
+        ctx.broken.append('no non-finite-trial-step case reached the model comparison')
+    else:
+        # self-test of the differ: first case again with the first accepted flag / step size perturbed
+        bad = coq_family(ctx, 'C12_xadaptive', DRV_HEADER + XDRV_HEADER_EXTRA, 'xadaptive_agrees', items, 'non-finite trial steps', chunk=30)
+        for (key, txt, _) in bad[:3]:
+            fam, k = key
+            c, r = (xc[k], xr[k]) if fam == 's' else (tc[k], tr[k])
+            ctx.broken.append('correspondence C12_xadaptive differs on %s case #%d' % (fam, k))
+            ctx.report('tie:adaptive-nonfinite' + ('' if fam == 's' else ':' + c['name']),
+                       '_adaptive_step_method visits step sizes / accepts steps / returns times other than the extended controller model '
+                       '(Model3.v) run on the same, partly non-finite, error ratios%s' % ('' if fam == 's' else ' (solvers.%s, tau0=%g)' % (c['name'], c['tau'])),
+                       jsafe({'case': strip(c), 'impl': {kk: vv for kk, vv in r.items() if kk != 'sols'}}), found_input=True)
+        ctx.cov['disagreements_checked'] += len(bad)
+    ctx.cov['nonfinite_trial_steps'] = stats
+    return len(xc) + len(tc)
+
+
 def newton_mirror(c):
     """Fractions mirror of Model.newton on F(x) = x^2 - c (classification only): returns the list of
     residuals visited if every intermediate value is exactly representable in binary64, else None."""
@@ -1353,7 +1681,7 @@ def check_trace_property(c, r, methods, stats):
 
 
 def strip(c):
-    return {k: v for k, v in c.items() if k not in ('mev', 'slack', 'exact', 'family', 'method', 'stiff', 'nst')}
+    return {k: v for k, v in c.items() if k not in ('mev', 'slack', 'exact', 'family', 'method', 'stiff', 'nst', 'outs')}
 
 
 def run_tasks(ctx, tasks, batch=150):
@@ -1387,6 +1715,7 @@ def coq_family(ctx, prefix, header, fn, items, what, chunk=40):
 def run(ctx):
     ctx.obligations_stage(PROPS, extra_targets=['C12/Examples.vo'])
     ctx.obligations_stage('C12/Props2.v', extra_targets=['C12/Examples2.vo'])
+    ctx.obligations_stage('C12/Props3.v', extra_targets=['C12/Examples3.vo'])
     ctx.assumptions += [
         'model: hand transcription of newton, dirk_step, rosenbrock_step, _constant_step_method, _adaptive_step_method '
         '(solvers.py:335-534, 684-707) into Gallina (coq/C12/Model.v); vectors are elements of a commutative ring '
@@ -1534,6 +1863,8 @@ def run(ctx):
         ctx.cov['disagreements_checked'] += len(bad)
 
     lap('driver ties in Coq')
+    nxf = stage_nonfinite(ctx, methods)
+    lap('non-finite trial steps')
     # self-test of the differ: a perturbed implementation answer must be flagged
     st_items = []
     c0 = next((k for k, (c, r) in enumerate(zip(ccases, cres)) if r['status'] == 'Ok' and len(r['times']) > 2), None)
@@ -1556,7 +1887,7 @@ def run(ctx):
     else:
         ctx.broken.append('self-test of the differ failed (perturbed answers not all rejected): %s' % out[-300:])
 
-    ctx.cov['traces_validated_against_impl'] = len(scases) + len(allc)
+    ctx.cov['traces_validated_against_impl'] = len(scases) + len(allc) + nxf
     ctx.cov['property_failures_on_impl'] = nprop
     ctx.cov['rule'] = ('one case = one call of dirk_step / rosenbrock_step / a driver / newton / a shipped method on a generated '
                        'input; non-trivial = every case (each has >= 1 implicit stage or >= 1 driver iteration); distinct by index')
